@@ -11,10 +11,12 @@ import (
 	"net/http/httptest"
 	"net/netip"
 	"net/url"
+	"os"
 	"runtime"
 	"sort"
 	"strings"
 	"sync"
+	"syscall"
 	"time"
 
 	"github.com/DataDog/datadog-traceroute/publicip"
@@ -291,9 +293,15 @@ func runC15CaseR(c *fw.Ctx, id string, rq c15Req) (ran bool, rerrOut error) {
 			nRun++
 		}
 		if s := sentinels[k]; s != nil {
-			if sameText {
+			switch {
+			case k%3 == 1:
+				// a failure that is ALSO a well-known errno (a netfilter rule refusing the send: EPERM; a broadcast target:
+				// EACCES): being recognisable as "permission denied" must not cost the other failures their place
+				errno := []syscall.Errno{syscall.EPERM, syscall.EACCES}[k%2]
+				env.w.PoisonHandle(e.handle, fmt.Errorf("handle of flow %d: %w", k, errors.Join(s, os.NewSyscallError("sendto", errno))))
+			case sameText:
 				env.w.PoisonHandle(e.handle, fmt.Errorf("sendto: %w", s))
-			} else {
+			default:
 				env.w.PoisonHandle(e.handle, fmt.Errorf("handle of flow %d: %w", k, s))
 			}
 		}
